@@ -10,7 +10,9 @@ EXPLANATION = (
     "T4 literals: PushB = length byte + bytes with encode refusing > 255, PushI = 32 bytes big-endian both ways, PushIC = length byte + minimal big-endian with both rejections present "
     "and necessary in decode (forced constant propagation); T5 unknown leading bytes reach only Err(InvalidOpcode); T6 Covenant::from_bytes consumes the whole input and propagates every "
     "decode error, to_bytes concatenates encode of every op, hash = hash_single(to_bytes()), from_ops/to_ops are the identity on the op list; T7 decode has no reachable panic site "
-    "(the one slice is dominated by the > 32 rejection)."
+    "(the one slice is dominated by the > 32 rejection). "
+    "T8 one weight: covenant_weight_from_bytes is from_bytes(b).map(weight).unwrap_or(0) — not a piecewise sum over separately decoded instructions, which loses the look-ahead "
+    "by which Loop prices its body — and Covenant::weight is opcodes_weight over the whole list."
 )
 NOT_DECIDED = ["the arithmetic of PushIC's canonical-length formula is read, not proved", "serde (non-consensus) representation of OpCode"]
 ASSUMPTIONS = ["std::io::Read for &[u8]: read_exact consumes exactly the buffer's length or fails"]
@@ -425,4 +427,26 @@ def t7_no_panic(ctx):
                 r.check(ok, "%s/arith@%s" % (b.nname.split("::")[-1], t["msg"]), "32 − leading_zeros/8 cannot underflow (leading_zeros ≤ 256)", "%s on %s may overflow" % (t["msg"], s[:120]), b.where(bi))
 
 
-RULES = [t1_constants, t2_t3_tables, t4_literals, t5_unknown, t6_whole_input, t7_no_panic]
+def t8_one_weight(ctx):
+    r = ctx.rule("T8", "weight is the same from bytes and from instructions: covenant_weight_from_bytes(b) = Covenant::from_bytes(b).map(weight).unwrap_or(0) and "
+                       "Covenant::weight = opcodes_weight over the whole instruction list (one weighing routine, applied to the whole decoded program)", positional=False)
+    from rules.props import c05
+    c05.weigher_def(ctx, r)
+    wb = ctx.body("melvm::Covenant::weight", r)
+    rets = q.ret_assignments(wb)
+    e = rets[0][2] if len(rets) == 1 else None
+    if e is not None and q.is_call(e, "opcodes_weight") and len(e[2]) == 1:
+        a = sig(q.novers(e[2][0]))
+        if "index(" in a or "Range" in a or "split" in a or "skip" in a or "take" in a:
+            r.violation("weight/whole", "Covenant::weight weighs only part of the instruction list: %s" % a[:140], wb.where(rets[0][0]))
+        elif "$1" in a and ".0" in a:
+            r.ok("weight/whole", "Covenant::weight = opcodes_weight(%s)" % a[:80], wb.where(rets[0][0]))
+        else:
+            r.undecided("weight/whole", "argument of opcodes_weight not recognised: %s" % a[:140], wb.where(rets[0][0]))
+    elif e is not None and not q.has_unknown(e):
+        r.violation("weight/whole", "Covenant::weight returns %s, not opcodes_weight of its instruction list" % sig(e)[:140], "%s:%s" % (wb.file, wb.line))
+    else:
+        r.undecided("weight/whole", "Covenant::weight not understood")
+
+
+RULES = [t1_constants, t2_t3_tables, t4_literals, t5_unknown, t6_whole_input, t7_no_panic, t8_one_weight]
